@@ -986,7 +986,9 @@ func (ex *Exec) finish() {
 		o.SetOnly(en.Only)
 	}
 	// frame: every heap written must be unchanged on pre-existing cells, except where `modifies` allows it
-	if !ex.con.NoFrame {
+	if ex.con.AssumedFrame {
+		ex.vc.assumed["frame of "+ex.con.Name+" trusted as declared (option assumed_frame): its callees are outside the contracts"] = true
+	} else if !ex.con.NoFrame {
 		ex.frameObligations()
 	}
 }
